@@ -106,7 +106,7 @@ def r07_1(ctx: Ctx, rep: Report) -> None:  # noqa: C901
                 feasible_on.add(pl)
         if stored is not None:
             writes_line.append((stored, feasible_on))
-            if feasible_on != mask_platforms:
+            if mask_platforms is not None and feasible_on != mask_platforms:
                 only_ios = False
     if not writes_line:
         rep.violation("functions._convert_ios_addr", "line rewrite", "the member line is not rewritten to a wildcard", where(conv))
@@ -115,7 +115,9 @@ def r07_1(ctx: Ctx, rep: Report) -> None:  # noqa: C901
         txt = src(stored)
         ok_attrs = "network_address" in txt and "hostmask" in txt and txt.index("network_address") < txt.index("hostmask")
         if ok_attrs and only_ios:
-            rep.ok("functions._convert_ios_addr", f"rewrites line to '<network_address> <hostmask>' exactly on the platforms where a group member 'A B' is address + mask: {sorted(mask_platforms)}", where=where(conv))
+            if mask_platforms is None:
+                rep.note("R07.1 which platforms read a group member 'A B' as address + mask could not be read off AddressAg.line (platform guard of the rewrite not judged)")
+            rep.ok("functions._convert_ios_addr", "rewrites line to '<network_address> <hostmask>'" + (f" exactly on the platforms where a group member 'A B' is address + mask: {sorted(mask_platforms)}" if mask_platforms is not None else ""), where=where(conv))
         elif not only_ios:
             got = sorted(set().union(*[fo for _s, fo in writes_line]))
             rep.violation("functions._convert_ios_addr", f"platform guard: rewrite on {got}", f"the mask -> wildcard rewrite of a group member is applied on {got}, but AddressAg reads 'A B' as address + MASK on {sorted(mask_platforms)} (as address + wildcard elsewhere): on a platform in one set and not the other the ACE gets the member with mask and wildcard confused - another set of addresses", where(conv), inp="acls('object-group network G / 10.0.0.0 255.255.0.0 / ip access-list extended A / permit ip object-group G any', platform='asa')")
@@ -263,36 +265,83 @@ def r07_3(ctx: Ctx, rep: Report) -> None:
             rep.violation(q, "parse before read", "a parsed view is read before parse_config() ran (or is never parsed): the driver returns nothing", where(d))
 
 
-def _mask_platforms(ctx: Ctx, platforms: List[str]) -> Set[str]:
-    """Platforms on which AddressAg reads the two-quad form 'A B' through its subnet (address + mask) reader: decided from
-    the branch of `AddressAg.line` that handles that form, evaluated per platform."""
+def _mask_platforms(ctx: Ctx, platforms: List[str]) -> Optional[Set[str]]:
+    """Platforms on which AddressAg reads the two-quad form 'A B' through its subnet (address + mask) reader: the body of
+    `AddressAg.line` is walked per platform with "the text is of the two-quad form" put in for the form tests (the other
+    form tests false), locals bound on the way folded, until a `self._line__<reader>(...)` call is reached."""
+    from ..fold import known as _known
+
     f = ctx.func("AddressAg.line.setter")
+    forms = set()
+    for x in own_nodes(f.node):
+        if isinstance(x, ast.Call) and isinstance(x.func, ast.Attribute) and src(x.func.value) == "self" and (x.func.attr.startswith("_is_address") or x.func.attr == "_is_addrgroup"):
+            forms.add(src(x))
+    two_quad = {c for c in forms if "wildcard" in c or "subnet" in c}
+    if not two_quad:
+        return None
     out: Set[str] = set()
     found = False
-    for br in [x for x in own_nodes(f.node) if isinstance(x, ast.If) and "_is_address_wildcard" in src(x.test)]:
-        for pl in platforms:
-            def called(stmts) -> Optional[str]:
-                for st in stmts:
-                    if isinstance(st, ast.If):
-                        v = ctx.folder.fold(st.test, f.module, {"self._platform": pl, "self.platform": pl})
-                        if v is True or v is False:
-                            r = called(st.body if v else st.orelse)
-                            if r:
-                                return r
-                            continue
-                        return None
-                    for c in ast.walk(st):
-                        if isinstance(c, ast.Call) and isinstance(c.func, ast.Attribute) and src(c.func.value) == "self" and c.func.attr.startswith("_line__"):
-                            return c.func.attr
-                return None
+    for pl in platforms:
+        env: Dict[str, object] = {"self._platform": pl, "self.platform": pl}
+        for c in forms:
+            env[c] = c in two_quad
+        alias: Dict[str, str] = {}
 
-            h_ = called(br.body)
-            if h_ is not None:
-                found = True
-                if "subnet" in h_:
-                    out.add(pl)
+        def walk(stmts) -> Optional[str]:
+            for st in stmts:
+                if isinstance(st, (ast.Assign, ast.AnnAssign)) and st.value is not None:
+                    t = st.targets[0] if isinstance(st, ast.Assign) else st.target
+                    if isinstance(t, ast.Name):
+                        # a reader picked into a local: `rd = self._line__a if <test> else self._line__b`
+                        val = st.value
+                        while isinstance(val, ast.IfExp):
+                            tv = ctx.folder.fold(val.test, f.module, env)
+                            if tv is True or tv is False:
+                                val = val.body if tv else val.orelse
+                            else:
+                                break
+                        if isinstance(val, ast.Attribute) and src(val.value) == "self" and val.attr.startswith("_line__"):
+                            alias[t.id] = val.attr
+                            continue
+                        v = ctx.folder.fold(st.value, f.module, env)
+                        if _known(v):
+                            env[t.id] = v
+                        else:
+                            env.pop(t.id, None)
+                    continue
+                if isinstance(st, ast.If):
+                    v = ctx.folder.fold(st.test, f.module, env)
+                    if v is True or v is False:
+                        r = walk(st.body if v else st.orelse)
+                        if r:
+                            return r
+                        continue
+                    return "?"
+                for c in ast.walk(st):
+                    if isinstance(c, ast.Call) and isinstance(c.func, ast.Attribute) and src(c.func.value) == "self" and c.func.attr.startswith("_line__"):
+                        return c.func.attr
+                    if isinstance(c, ast.Call) and isinstance(c.func, ast.Name) and c.func.id in alias:
+                        return alias[c.func.id]
+                    if isinstance(c, ast.Call) and isinstance(c.func, ast.IfExp):
+                        fx = c.func
+                        tv = ctx.folder.fold(fx.test, f.module, env)
+                        if tv is True or tv is False:
+                            pick = fx.body if tv else fx.orelse
+                            if isinstance(pick, ast.Attribute) and pick.attr.startswith("_line__"):
+                                return pick.attr
+                if isinstance(st, (ast.Raise, ast.Return)):
+                    return "!"
+            return None
+
+        h_ = walk(f.node.body)
+        if h_ and h_ not in ("?", "!"):
+            found = True
+            if "subnet" in h_:
+                out.add(pl)
+        elif h_ == "?":
+            return None
     if not found:
-        raise AnalysisError("AddressAg.line setter: the reader of the two-quad form could not be determined per platform")
+        return None
     return out
 
 
